@@ -6,7 +6,7 @@ discipline of the downloader (`DisciplinedRun`: Schedule is called with `from` =
 headers accepted so far; the window length passed to a reservation is at most the cache length).
 `batches` is the list of batches `Results` returned along the run.
 -/
-import YouVerif.C18.ProofsGood
+import YouVerif.C18.ProofsProgress
 namespace YouVerif.C18
 
 /-- Results never hands out more than `maxResultsProcess` items. -/
@@ -159,37 +159,77 @@ theorem scheduled_chain_linked (cacheLen maxProc : Nat) (fast : Bool) (offset : 
 
 /-! ### progress -/
 
-/-- a correct answer to the peer's pending request: for every requested header a list hashing to its root -/
-def honestAnswer (s : State) (k : Kind) (p : Nat) : List Nat := ((pget (s.pools k).pend p).getD []).map (root k)
+/-- **Progress.**  From every state reachable under the call discipline, honest rounds drain the schedule: in a round
+(`honestRound`, defined in ProofsProgress.lean) every in-flight request times out (`expire` of all peers, both kinds),
+one honest peer `p` — any peer with an empty lacking set — reserves with any capacity `count > 0` and any window
+`0 < limit ≤ cacheLen` and answers with lists hashing to the requested roots (bodies, then receipts), and the importer
+calls `Results`.  After as many rounds as blocks are outstanding, everything scheduled has been handed to the importer,
+in order.  (Measure: the number of outstanding blocks drops in every round, `round_progress`.) -/
+theorem progress (cacheLen maxProc : Nat) (fast : Bool) (offset : Nat) (ops : List Op)
+    (hd : DisciplinedRun (init cacheLen maxProc fast offset) ops) (hc : 0 < cacheLen) (hm : 0 < maxProc)
+    (p limit count : Nat) (hl0 : 0 < limit) (hl : limit ≤ cacheLen) (hcnt : 0 < count) :
+    let s := run (init cacheLen maxProc fast offset) ops
+    lget s.lacking p = [] →
+    (honestRounds p limit count (s.sched.length - s.ret.length) s).ret.map (·.header) = s.sched := by
+  intro s hlack
+  have hg : Good s := good_run (good_init _ _ _ _) ops hd
+  have hcfg : s.cfg = ⟨cacheLen, maxProc, fast⟩ := by
+    have : ∀ (t : State) (l : List Op), (run t l).cfg = t.cfg := by
+      intro t l
+      induction l generalizing t with
+      | nil => rfl
+      | cons op l ih =>
+        show (run (step t op) l).cfg = t.cfg
+        rw [ih]
+        cases op with
+        | schedule hs f => exact (scheduleLoop_frame hs f t).1
+        | reserve k l p c => exact (reserve_frame t k l p c).cfg
+        | deliver k p bs => exact (deliver_frame t k p bs).cfg
+        | cancel k p => rfl
+        | expire k ps => rfl
+        | revoke p => rfl
+        | results => rfl
+    show (run (init cacheLen maxProc fast offset) ops).cfg = _
+    rw [this]; rfl
+  obtain ⟨g', hs', hlen⟩ := rounds_progress p limit count (s.sched.length - s.ret.length) s hg
+    (by rw [hcfg]; exact hc) (by rw [hcfg]; exact hm) hl0 (by rw [hcfg]; exact hl) hcnt hlack
+  have hle := hg.inv.ret_le
+  have hle' := g'.inv.ret_le
+  rw [hs'] at hle'
+  have heq : (honestRounds p limit count (s.sched.length - s.ret.length) s).ret.length = s.sched.length := by omega
+  have := g'.inv.retEq
+  rw [hs', heq, List.take_length] at this
+  exact this
 
-def allPeers (s : State) (k : Kind) : List Nat := (s.pools k).pend.map (·.1)
-
-/-- one honest round: every in-flight request times out, the honest peer `p` reserves and answers correctly
-(bodies, then receipts), the importer collects results -/
-def honestRound (p limit count : Nat) (s : State) : State :=
-  let s1 := (expire s .body (allPeers s .body)).1
-  let s2 := (expire s1 .rcpt (allPeers s1 .rcpt)).1
-  let s3 := (reserve s2 .body limit p count).1
-  let s4 := (deliver s3 .body p (honestAnswer s3 .body p)).1
-  let s5 := (reserve s4 .rcpt limit p count).1
-  let s6 := (deliver s5 .rcpt p (honestAnswer s5 .rcpt p)).1
-  (results s6).1
-
-def honestRounds (p limit count : Nat) : Nat → State → State
-  | 0, s => s
-  | n + 1, s => honestRounds p limit count n (honestRound p limit count s)
-
-/-- FULL progress statement (not proved here; sampled by the correspondence harness, whose final drain performs
-exactly these rounds on the real queue and the model and demands at least one returned block per round):
-from every reachable state, one honest round per outstanding block hands the whole scheduled chain to the importer.
-Missing for a proof: the composition of the four steps of a round. -/
-def progress_statement : Prop :=
-  ∀ (cacheLen maxProc : Nat) (fast : Bool) (offset : Nat) (ops : List Op),
-    DisciplinedRun (init cacheLen maxProc fast offset) ops → 0 < cacheLen → 0 < maxProc →
-    ∀ (p limit count : Nat), 0 < limit → limit ≤ cacheLen → 0 < count →
-      let s := run (init cacheLen maxProc fast offset) ops
-      lget s.lacking p = [] →
-      ((honestRounds p limit count (s.sched.length - s.ret.length) s).ret.map (·.header) = s.sched)
+/-- one round of `progress`: while a block is outstanding, an honest round returns at least one more block -/
+theorem progress_round (cacheLen maxProc : Nat) (fast : Bool) (offset : Nat) (ops : List Op)
+    (hd : DisciplinedRun (init cacheLen maxProc fast offset) ops) (hc : 0 < cacheLen) (hm : 0 < maxProc)
+    (p limit count : Nat) (hl0 : 0 < limit) (hl : limit ≤ cacheLen) (hcnt : 0 < count) :
+    let s := run (init cacheLen maxProc fast offset) ops
+    lget s.lacking p = [] → s.ret.length < s.sched.length →
+    s.ret.length + 1 ≤ (honestRound p limit count s).ret.length := by
+  intro s hlack hout
+  have hg : Good s := good_run (good_init _ _ _ _) ops hd
+  have hcfg : s.cfg = ⟨cacheLen, maxProc, fast⟩ := by
+    have : ∀ (t : State) (l : List Op), (run t l).cfg = t.cfg := by
+      intro t l
+      induction l generalizing t with
+      | nil => rfl
+      | cons op l ih =>
+        show (run (step t op) l).cfg = t.cfg
+        rw [ih]
+        cases op with
+        | schedule hs f => exact (scheduleLoop_frame hs f t).1
+        | reserve k l p c => exact (reserve_frame t k l p c).cfg
+        | deliver k p bs => exact (deliver_frame t k p bs).cfg
+        | cancel k p => rfl
+        | expire k ps => rfl
+        | revoke p => rfl
+        | results => rfl
+    show (run (init cacheLen maxProc fast offset) ops).cfg = _
+    rw [this]; rfl
+  exact (round_progress hg p limit count (by rw [hcfg]; exact hc) (by rw [hcfg]; exact hm) hl0
+    (by rw [hcfg]; exact hl) hcnt hlack).2.2.2.2.2 hout
 
 /-- **The window check never fires.**  Under the call discipline neither reserveHeaders nor deliver ever answers
 errInvalidChain: throttling by `resultSlots` keeps every popped header inside the result window, and every header in
@@ -240,7 +280,7 @@ theorem window_invariants (cacheLen maxProc : Nat) (fast : Bool) (offset : Nat) 
   have hg := good_run (good_init _ _ _ _) ops hd
   exact ⟨hg.ext.pendCached, hg.ext.sorted, hg.ext.pref⟩
 
-/-- PARTIAL (progress, last step): once the block at the head of the window is complete, `Results` returns it. -/
+/-- (step of `progress`, kept as a lemma of independent use): once the block at the head of the window is complete, `Results` returns it. -/
 theorem progress_results_partial (s : State) (r : Result) (hc : 0 < s.cfg.cacheLen) (hm : 0 < s.cfg.maxProc)
     (h : cget s.cache s.offset = some r) (hp : r.pending ≤ 0) : (results s).2 ≠ [] := by
   simp only [results]
@@ -255,19 +295,13 @@ theorem progress_results_partial (s : State) (r : Result) (hc : 0 < s.cfg.cacheL
   rw [hn]
   simp [takeResults, h]
 
-/-- PARTIAL (progress, first step): a timeout of all peers empties the request pool — by `no_task_lost`
+/-- (step of `progress`): a timeout of all peers empties the request pool — by `no_task_lost`
 (Reshuffle keeps every occurrence) all their tasks are back in the queue. -/
 theorem progress_expire_all_partial (p : Pools) (out : List (Nat × Nat)) :
-    (expireLoop (p.pend.map (·.1)) p out).1.pend = [] := by
-  obtain ⟨pool, queue, pend, done⟩ := p
-  induction pend generalizing queue out with
-  | nil => simp [expireLoop]
-  | cons e t ih =>
-    obtain ⟨k, v⟩ := e
-    simp only [List.map_cons, expireLoop, pget, if_true, perase]
-    exact ih _ _
+    (expireLoop (p.pend.map (·.1)) p out).1.pend = [] :=
+  expire_all_pend_nil p out
 
-/-- PARTIAL (progress, third step): an honest answer — for every header of the peer's pending request a list hashing
+/-- (step of `progress`): an honest answer — for every header of the peer's pending request a list hashing
 to its root — is accepted in full with no error, provided the requested headers have result slots in the window
 (which reservation establishes). -/
 theorem progress_honest_delivery_partial (s : State) (k : Kind) (p : Nat) (hs : List Header)
